@@ -1,10 +1,11 @@
 """Registry entry for C05."""
 
 PROP = dict(
-    module="JadeModel.Props.C05", ns="Jade.C05",
+    module="JadeModel.Props.C05All", ns="Jade.C05",
     required=["C05_quiescent_round_progress", "C05_refused_promotion_is_noop", "C05_batches_bounded", "C05_complete_once",
               "C05_no_second_completion", "C05_no_sbatch_after_complete", "C05_summary_before_flag", "C05_decision",
-              "C05_round_leaves_unblocked_only_when_full", "C05_submit_loop_terminates"],
+              "C05_round_leaves_unblocked_only_when_full", "C05_submit_loop_terminates",
+              "C05_flag_only_when_all_rows", "C05_decided_no_missing"],
     suites=["system", "batch"],
     level_text="Machine-checked over ALL scenarios and op sequences of the system model: from any reachable moment at which "
                "nobody holds the submitter role and every recorded batch has ended, a round that reaches the end of its submit "
@@ -13,9 +14,11 @@ PROP = dict(
                "rounds); the flag is set at most once, only after the same process wrote the summary, and no sbatch event is "
                "possible afterwards. Component (real submit loop, all inputs): it terminates and leaves a candidate without "
                "blockers unbatched only when the node limit is reached. "
-               "PARTIAL: 'flag only when every job has a result' and termination of a whole round are liveness facts of fault-free "
-               "runs that the guard-based model does not carry; they are decided by the direct oracle on real executions "
-               "(every quiescent try-submit-jobs submits or completes; every fault-free run completes with no missing job).",
+               "Fault-free runs (runP): the summary is written and the flag set only when every configured job has a row "
+               "(C05_flag_only_when_all_rows, from the Live0-Live5 invariants). "
+               "PARTIAL: termination of a whole round / of the run is not carried by the guard-based model; it is decided by the "
+               "direct oracle on real executions (every quiescent try-submit-jobs submits or completes; every fault-free run "
+               "completes) together with C07's termination theorem for the submit loop.",
     level_note="Tied by history replay of real executions (plain and busy modes with user try-submit-jobs/show-status at random "
                "moments and at quiescence, incl. refused promotions) + the batch correspondence suite + generated predicates of "
                "_is_complete / run gate. Trusted: Lean kernel (+3 axioms), vcluster + translation, truthful squeue.",
